@@ -4,7 +4,7 @@ against it, and print / store which checks (and rules) report a violation."""
 import json, os, shutil, subprocess, sys, tempfile
 from concurrent.futures import ThreadPoolExecutor
 ROOT = '/verif/seeded'
-ids = sys.argv[1:] or sorted(os.listdir(ROOT))
+ids = sys.argv[1:] or sorted(d for d in os.listdir(ROOT) if os.path.isdir(os.path.join(ROOT, d)))
 props = [f'C{i:02d}' for i in range(1, 21)]
 
 def one(sid):
